@@ -332,6 +332,21 @@ def check(ctx):
         sup = find("super().__setstate__(state)", g2, nested=False)
         ok = bool(pops and cps and ixs and rest and sup) and dominates(g1, cps[0][0], pops[0][0]) and dominates(g2, sup[0][0], rest[0][0])
     ctx.ob("TAB.pickle.nested-constructor", nc.node, "NestedContainer: pop 'constructor' from a copy of kwargs; restore it after super().__setstate__", ok)
+    # ---------------- every value of a legacy graph goes through convert_legacy_task with the full key set
+    clg = ts.func("convert_legacy_graph") if "ts" in dir() else ctx.model.module("dask/_task_spec.py").func("convert_legacy_graph")
+    loops_ = [l for l in walk_no_nested(clg) if isinstance(l, ast.For) and unparse(l.iter) == "dsk.items()"]
+    ok = len(loops_) == 1
+    if ok:
+        l_ = loops_[0]
+        first = l_.body[0]
+        ok = unparse(first) == "t = convert_legacy_task(k, arg, all_keys)" and unparse(l_.target) == "(k, arg)"
+    ctx.ob("MPT.convert-all-values", clg, "convert_legacy_graph: the first thing done with every (k, arg) is convert_legacy_task(k, arg, all_keys) -- no value bypasses the conversion", ok, "" if ok else "some values are wrapped without conversion: a literal that equals a graph key (e.g. the number 0 when 0 is a key) is no longer a reference and the node reports no dependency")
+    ok = bool(find("all_keys = set(dsk)", clg)) and any(unparse(e) == "all_keys is None" and pol for a_ in [x for x, _ in find("all_keys = set(dsk)", clg)] for e, pol in cfg_of(clg).facts(a_))
+    ctx.ob("MPT.convert-all-values.default-keys", clg, "all_keys defaults to the graph's own keys only when not given", ok)
+    cg = ctx.model.module("dask/core.py").func("get")
+    cc = [c for c in calls(cg, "convert_legacy_graph")]
+    ok = len(cc) == 1 and unparse(kwarg(cc[0], "all_keys")) == "set(dsk) | set(cache)"
+    ctx.ob("DELEG.core-get.cache-keys", cg, "core.get converts with all_keys = keys of the graph and of the supplied cache", ok, "" if ok else "keys that only exist in the cache argument are not recognised as keys: references to them are passed as literals")
 
 
 VARIANTS = [
